@@ -18,7 +18,7 @@ PROPERTY = 'C07'
 RULE = ('models built through the API from G_lang x G_model descriptions (explicit / zero / negative ids, '
         'duplicate, unicode and YAML-significant names, non-default defenses, extras on assets and '
         'associations, several attackers with several entry points, duplicate-named association classes) '
-        'followed by removals (id gaps) x {json, yml, yaml}; plus hand-written file dicts with permuted asset '
+        'followed by removals (id gaps) and optionally a first save followed by changes to the live model (defense values, extras) x {json, yml, yaml}; plus hand-written file dicts with permuted asset '
         'order, id 0 at any position and the type-only shorthand. Oracle: round trip - typed observable state '
         '(attributes, not the dict form) of the loaded model equals the original / the model the file '
         'describes, and save(load(save(m))) has the same content as save(m). Non-trivial: an id gap or an '
@@ -94,6 +94,26 @@ def check_roundtrip(case) -> Outcome:
     except Exception as e:
         out.add('model-construction-raises', f'{type(e).__name__}: {e}')
         return out
+    if case.get('resave'):
+        # serialise once, then change the live model, so that a stale serialisation would be noticed
+        try:
+            model._to_dict()
+            model.save_to_file(os.path.join(worker_tmp('c07'), 'first.json'))
+            L_ = Lang(spec)
+            for k, (i, v) in enumerate(case['resave']):
+                live = [o for j, o in enumerate(objs) if j not in removed]
+                if not live:
+                    break
+                o = live[i % len(live)]
+                dn = sorted(defenses_of(L_, str(o.type)))
+                if dn and k % 2 == 0:
+                    setattr(o, dn[i % len(dn)], [0.0, 1.0, 0.5, 0.25][v % 4])
+                else:
+                    o.extras = {'changed': v}
+            out.classes.append('saved-mutated-saved')
+        except Exception as e:
+            out.add('mutation-after-save-raises', f'{type(e).__name__}: {e}')
+            return out
     problems = []
     orig = typed_state(model, spec, problems)
     if problems:
@@ -226,6 +246,7 @@ def roundtrip_cases(draw):
                                    'id': 100 + j,
                                    'entry_points': [[i, draw(st.lists(st.sampled_from(steps), min_size=1, max_size=2, unique=True))]]})
     return {'spec': spec, 'model': m,
+            'resave': draw(st.lists(st.tuples(st.integers(0, 5), st.integers(0, 7)).map(list), max_size=2)),
             'removals': draw(st.lists(st.integers(0, 5), max_size=2)),
             'link_extras': draw(st.lists(st.tuples(st.integers(0, 5), st.sampled_from(EXTRAS)).map(list), max_size=2)),
             'fmt': draw(st.integers(0, 2)),
